@@ -49,6 +49,7 @@ type Input struct {
 	PreCreate bool     `json:"pre_create"` // direct: the series is ingested into once before the uploader starts
 	// concurrent producers (several sessions share one upstream): per round a fresh Remote whose workers all hang, the queue
 	// filled to capacity minus Slack, then Producers goroutines released together (spin barrier), one Upload each
+	UserInfo  string `json:"user_info"` // userinfo of the upstream address (http://USERINFO@host...), only with a token configured
 	Producers int `json:"producers"`
 	Rounds    int `json:"rounds"`
 	Slack     int `json:"slack"`
@@ -360,6 +361,14 @@ func optBytes(s *string) string {
 	return lib.Some(lib.Bytes([]byte(*s)))
 }
 
+// withUserInfo turns http://host:port into http://userinfo@host:port
+func withUserInfo(addr, ui string) string {
+	if ui == "" {
+		return addr
+	}
+	return strings.Replace(addr, "://", "://"+ui+"@", 1)
+}
+
 func runRemote(in Input, jobs []*jobDesc) (res lib.Result) {
 	srv := &server{script: in.Script, release: make(chan struct{})}
 	var addr string
@@ -394,7 +403,7 @@ func runRemote(in Input, jobs []*jobDesc) (res lib.Result) {
 
 	lg := &recLogger{}
 	rem, err := remote.New(remote.RemoteConfig{
-		AuthToken: in.Token, UpstreamThreads: in.Threads, UpstreamAddress: addr + in.Path,
+		AuthToken: in.Token, UpstreamThreads: in.Threads, UpstreamAddress: withUserInfo(addr, in.UserInfo) + in.Path,
 		UpstreamRequestTimeout: time.Duration(in.TimeoutMs) * time.Millisecond,
 	}, lg)
 	if err != nil {
@@ -503,7 +512,7 @@ func runProducers(in Input) lib.Result {
 		ts.Config.ErrorLog = logDiscard
 		ts.Start()
 		lg := &recLogger{}
-		rem, err := remote.New(remote.RemoteConfig{AuthToken: in.Token, UpstreamThreads: k, UpstreamAddress: ts.URL + in.Path}, lg)
+		rem, err := remote.New(remote.RemoteConfig{AuthToken: in.Token, UpstreamThreads: k, UpstreamAddress: withUserInfo(ts.URL, in.UserInfo) + in.Path}, lg)
 		if err != nil {
 			ts.Close()
 			return lib.Result{Crash: "remote.New: " + err.Error()}
@@ -774,7 +783,7 @@ func finish(in Input, jobs []*jobDesc, hold int, maxLat time.Duration, reqTerms 
 		Coq:        coq,
 		NonTrivial: in.Burst > 100 || !allOK || in.Refuse,
 		Feat: map[string]interface{}{"mode": in.Mode, "threads": threads, "burst": burstClass, "script": strings.Join(in.Script, ","),
-			"refuse": in.Refuse, "paced": in.Paced, "drops": dropClass(full), "panics_injected": len(in.PanicAt), "token": in.Token != "",
+			"refuse": in.Refuse, "paced": in.Paced, "drops": dropClass(full), "panics_injected": len(in.PanicAt), "token": in.Token != "", "user_info": in.UserInfo != "",
 			"latency": latClass, "timeout_ms": in.TimeoutMs, "after_stop": in.AfterStop, "producers": in.Producers},
 		Obs: map[string]interface{}{"max_latency_us": int64(maxLat / time.Microsecond), "delivered": ndel, "full_logs": full,
 			"err_logs": errs, "panic_logs": panics, "drained": drained, "bad_responses": bad},
@@ -840,6 +849,9 @@ func gen(r *rand.Rand, idx int, tier string) Input {
 	in.Path = lib.Pick(r, []string{"", "", "/", "/base", "/a/b"})
 	if lib.Chance(r, 0.2) {
 		in.AfterStop = lib.Pick(r, []int{3, 120})
+	}
+	if in.Token != "" && lib.Chance(r, 0.4) {
+		in.UserInfo = lib.Pick(r, []string{"agent-7", "user:pass", "a%40b:p%3Aw"})
 	}
 	if idx%10 == 3 { // several producers call Upload at the same moment, the queue being (almost) full
 		in.Producers = lib.Range(r, 2, 16)
